@@ -408,7 +408,10 @@ def rw_for_slice(text: str, nth: int, mutable: bool) -> str:
   pat, name = m.group(1), m.group(2)
   params = text[a.params_open:a.params_close + 1]
   pm = re.search(r'\b%s\s*:\s*&\s*(mut\s+)?\[' % re.escape(name), params)
-  if not pm: raise Undecided('R13: `%s` is not a slice-reference parameter' % name)
+  if not pm:
+    # a local explicitly typed as a slice reference (`let NAME: &[T] = ...;`) is as good as a parameter
+    pm = re.search(r'\blet\s+%s\s*:\s*&\s*(mut\s+)?\[' % re.escape(name), text[a.body_open:kwo])
+  if not pm: raise Undecided('R13: `%s` is not a slice-reference parameter or typed local' % name)
   if bool(pm.group(1)) != mutable: raise Undecided('R13: mutability of `%s` does not match the rule' % name)
   body = text[lbo + 1:lbc]
   if any(t.kind == 'id' and t.text == 'continue' for t in rsitems.lex(body)):
